@@ -10,7 +10,7 @@
    entry of the tick task (the harness calls receive_tick directly with a controlled clock),
    slaves of slaves (create_slave is only applied to the root). *)
 From Coq Require Import List NArith Bool.
-From LTV Require Import Params_gen.
+From LTV.C12 Require Import ParamsGen.
 Import ListNotations.
 Local Open Scope N_scope.
 
@@ -222,11 +222,15 @@ Definition set_enabled (t : tl) (b : bool) : tl :=
   {| enabled := b; size := size t; outst := outst t; unalloc := unalloc t; uu := uu t;
      radded := radded t; minc := minc t; maxc := maxc t; rslow := rslow t; act := act t; inact := inact t |}.
 
+Definition take_radded (t : tl) : tl * N :=
+  ({| enabled := enabled t; size := size t; outst := outst t; unalloc := unalloc t; uu := uu t;
+      radded := 0; minc := minc t; maxc := maxc t; rslow := rslow t; act := act t; inact := inact t |}, radded t).
+
 Definition tl_enable (t : tl) : res tl :=
   if enabled t then Ok t
   else match act t, inact t with
        | [], _ :: _ => Err E_enable_split
-       | _, _ => Ok (set_enabled t true)
+       | _, _ => Ok (fst (take_radded (set_enabled t true)))   (* m_rateAdded = 0 (commit 36e16d0) *)
        end.
 
 (* returns the new list and the ids whose activate() slot ran, in order *)
@@ -239,10 +243,6 @@ Definition tl_disable (t : tl) : tl * list N :=
 Definition set_chunks (t : tl) (mn mx : N) : tl :=
   {| enabled := enabled t; size := size t; outst := outst t; unalloc := unalloc t; uu := uu t;
      radded := radded t; minc := mn; maxc := mx; rslow := rslow t; act := act t; inact := inact t |}.
-
-Definition take_radded (t : tl) : tl * N :=
-  ({| enabled := enabled t; size := size t; outst := outst t; unalloc := unalloc t; uu := uu t;
-      radded := 0; minc := minc t; maxc := maxc t; rslow := rslow t; act := act t; inact := inact t |}, radded t).
 
 (* ------------------------------------------------------------------ Throttle::calculate_* *)
 (* chunk-size table (limit, min chunk) re-extracted from throttle.cc: Params.throttle_chunk_table,
@@ -280,8 +280,10 @@ Definition init : st :=
 Definition secs (us : N) : N := us / 1000000.
 Definition fraction_base : N := 2 ^ Params.throttle_fraction_bits.
 
+(* commit 5638f7b: max rate 0 (unlimited) shares the parent's quota *)
 Definition need_of (quota fraction rate : N) : N :=
-  N.min quota ((((fraction * rate) mod w64) / fraction_base) mod w32).
+  if rate =? 0 then quota
+  else N.min quota ((((fraction * rate) mod w64) / fraction_base) mod w32).
 
 Definition cap_used (quota unused : N) : N * N :=   (* (used bits, unused') *)
   if quota <? unused then (sub32 quota (sub32 unused quota), quota) else (quota, unused).
